@@ -125,6 +125,12 @@ def rule_r22_partition(ctx, prog, rule="R22", body=None):
                                 k = (aa[0], aa[1] + (cc[1] if op == "Add" else -cc[1]))
                     elif rv["k"] == "use" and rv["a"]["k"] == "const":
                         k = sa.opnd_term(rv["a"])
+                    elif rv["k"] == "binop" and rv["op"] in ("Add", "Sub"):
+                        aa, cc = sa.opnd_term(rv["a"]), sa.opnd_term(rv["b"])
+                        if aa and cc and cc[0] == "Z":
+                            c = cc[1] if rv["op"] == "Add" else -cc[1]
+                            if c >= 0 or st.d.entails("Z", aa[0], aa[1] + c):      # unchecked subtraction: exact only if it cannot wrap
+                                k = (aa[0], aa[1] + c)
         if k is None:
             return [("returns-rank", False, "returned value not recognised on path %s" % path)]
         return [("pivot-at-k", st.holds_at(k, "EQPV"), "a[k] = pivot value with k = %s on path %s" % (show_term(k, sa), path)),
